@@ -12,6 +12,18 @@ TRUST_CXX = (TRUST_PY + '; mock Dezyne runtime (mockrt/dzn) and mock of the dzn-
              'header (vf/cxx/model_header.py); g++ 12 / clang 14 and their sanitizers')
 
 CHECKS = {
+    'C01': dict(
+        technique='generated-input search (Hypothesis models x configurations) executed on the compiled shell: trace oracle of a driver that calls every (port, event) pair in all four roles against an instrumented mock component',
+        text='The generated C++ is compiled and run; every event is sent with unique argument values and scripted '
+             'replies/out-values and the recorded trace must show exactly one arrival at the same-named event on the other '
+             'side with equal arguments and the reply/out values back at the caller; coverage of all pairs is checked.',
+        note=TRUST_CXX, design='C01'),
+    'C02': dict(
+        technique='generated-input search executed on the compiled shell under ASan/UBSan with a harness-owned pausable dispatcher: ordering / thread-context / queue-counter oracle per event, static_assert on accessor types',
+        text='Per event of every exposed port the run-time behaviour is observed: blocking through the dispatcher for MTS '
+             'provides events, queued by-value delivery for MTS requires events (stack-use-after-return detection), caller '
+             'thread and object identity for STS ports.',
+        note=TRUST_CXX, design='C02'),
     'C03': dict(
         technique='bounded-exhaustive enumeration (<= 3 ports per side, every selection) through construction -> match -> Builder.build, plus ' + PBT + 'a three-valued reference of the configuration semantics',
         text='The finite domain named in the property (3 names per side, all wildcards and name sets incl. an unknown '
